@@ -8,6 +8,7 @@ import (
 
 	goat "github.com/avos-io/goat"
 	"github.com/avos-io/goat/gen/goatorepo"
+	"google.golang.org/protobuf/proto"
 )
 
 // c18ReadTimeout: a logical connection is polled with a deadline while nothing is pending for its key
@@ -175,5 +176,83 @@ func c18ReadTimeout(r *Run) {
 				return
 			}
 		}
+	}
+}
+
+// c18ChanShared: the demultiplexer over the library's own channel transport as the shared transport
+// (envelopes travel by reference). Envelopes of every shape — resets, trailers, statuses, bodies,
+// repeated routing fields — written on a logical connection reach the shared transport unchanged, in
+// order; and what the shared transport delivers for a key is handed to its logical connection unchanged.
+func c18ChanShared(r *Run) {
+	if !r.Want("chanshared") {
+		return
+	}
+	rng := r.Rand("c18.chanshared")
+	toDm, fromDm := make(chan *Rpc, 8), make(chan *Rpc, 8)
+	shared := goat.NewGoatOverChannel(toDm, fromDm)
+	ctx, cancel := context.WithCancel(context.Background())
+	conns := make(chan goat.RpcReadWriter, 4)
+	dm := goat.NewDemux(ctx, shared, func(e *Rpc) string { return e.GetHeader().GetSource() }, func(rw goat.RpcReadWriter) { conns <- rw })
+	ran := make(chan struct{})
+	go func() { defer close(ran); dm.Run() }()
+	defer func() {
+		dm.Stop()
+		cancel()
+		close(toDm)
+		within(hangTimeout, func() { <-ran })
+	}()
+	toDm <- &Rpc{Id: 1, Header: &goatorepo.RequestHeader{Source: "k"}}
+	var lc goat.RpcReadWriter
+	select {
+	case lc = <-conns:
+	case <-time.After(hangTimeout):
+		r.Violate("chanshared.setup", "ops", "no logical connection announced", nil, nil, nil)
+		return
+	}
+	if _, err := lc.Read(context.Background()); err != nil {
+		r.Violate("chanshared.setup", "ops", "first envelope not handed over", nil, err.Error(), nil)
+		return
+	}
+	n := r.Scale(200, 5000)
+	for i := 0; i < n && r.NumViolations() <= 4; i++ {
+		e := c19Env(rng, rng.Intn(64), 256, false)
+		e.Id = uint64(10 + i)
+		if i%4 == 0 {
+			e.Reset_ = &goatorepo.Reset{Type: "RST_STREAM"}
+			e.Trailer = &goatorepo.Trailer{}
+		}
+		want := proto.Clone(e).(*Rpc)
+		r.Progress("chanshared", c19Brief(want))
+		// outbound: logical connection -> shared transport
+		if err := lc.Write(context.Background(), e); err != nil {
+			r.Violate("chanshared.write", "ops", "Write on a live logical connection failed", c19Brief(want), err.Error(), nil)
+			return
+		}
+		select {
+		case got := <-fromDm:
+			if !proto.Equal(got, want) {
+				r.Violate("chanshared.out", "ops", "an envelope written on a logical connection reached the shared transport changed", c19Text(want), c19Text(got), nil)
+			}
+		case <-time.After(hangTimeout):
+			r.Violate("chanshared.out", "ops", "an envelope written on a logical connection never reached the shared transport", c19Brief(want), nil, nil)
+			return
+		}
+		// inbound: shared transport -> logical connection (the key is the header's source)
+		in := proto.Clone(want).(*Rpc)
+		if in.Header == nil {
+			in.Header = &goatorepo.RequestHeader{}
+		}
+		in.Header.Source = "k"
+		wantIn := proto.Clone(in).(*Rpc)
+		toDm <- in
+		rctx, rcancel := context.WithTimeout(context.Background(), hangTimeout)
+		got, err := lc.Read(rctx)
+		rcancel()
+		if err != nil || !proto.Equal(got, wantIn) {
+			r.Violate("chanshared.in", "ops", "an envelope read from the shared transport was not handed unchanged to its key's logical connection", c19Text(wantIn), fmt.Sprint(c19Text(got), err), nil)
+			return
+		}
+		r.Eval(fmt.Sprintf("chanshared/%d", i), true)
+		r.Count("c18.chanshared")
 	}
 }
